@@ -130,7 +130,12 @@ func c33ListenerOne(rng *rand.Rand, tw *vfTraceWriter, no int) (key, detail stri
 	case <-time.After(120 * time.Second):
 		return "listener:hang", "Dial/Accept/Close calls did not all return within 120 s although Close was called"
 	}
-	// direct pairing checks
+	return c33Pairing(no, nd, na, dconn, aconn, apeer)
+}
+
+// c33Pairing: the direct pairing oracle (InmemListener.tla: PairInv, UniqueInv, QuiescentInv) on the
+// results of one execution.
+func c33Pairing(no, nd, na int, dconn, aconn []net.Conn, apeer []int) (key, detail string) {
 	seen := map[int]int{}
 	for a := 1; a <= na; a++ {
 		if aconn[a] == nil {
@@ -175,6 +180,103 @@ func c33ListenerOne(rng *rand.Rand, tw *vfTraceWriter, no int) (key, detail stri
 	return "", ""
 }
 
+// c33RaceOne: Accept calls already waiting, then Dial and Close released together, each after a
+// random spin, so that Close lands around the hand-over of the connection (between an Accept
+// call's entry check, its dequeue and its re-check).  Events are recorded like in c33ListenerOne
+// and returned; the pairing oracle judges the results.
+func c33RaceOne(rng *rand.Rand, no int) (evs []vfRec, key, detail string) {
+	ln := NewInmemoryListener()
+	nd := 1 + rng.Intn(2)
+	na := 1 + rng.Intn(2)
+	var mu sync.Mutex
+	log := func(r vfRec) { mu.Lock(); evs = append(evs, r); mu.Unlock() }
+	log(vfRec{"ev": "init", "nd": c33MaxD, "na": c33MaxA, "ncl": c33MaxCl, "tr": no, "race": 1})
+	dconn := make([]net.Conn, nd+1)
+	aconn := make([]net.Conn, na+1)
+	apeer := make([]int, na+1)
+	var wg sync.WaitGroup
+	for id := 1; id <= na; id++ {
+		id := id
+		wg.Add(1)
+		go func() {
+			defer wg.Done()
+			log(vfRec{"ev": "accept.start", "id": id})
+			c, err := ln.Accept()
+			ok, peer := 0, 0
+			if err == nil {
+				ok = 1
+				aconn[id] = c
+				if a, isA := c.RemoteAddr().(c33Addr); isA {
+					peer = int(a)
+				}
+				apeer[id] = peer
+			}
+			log(vfRec{"ev": "accept.end", "id": id, "ok": ok, "peer": peer})
+		}()
+	}
+	for i := rng.Intn(4); i > 0; i-- {
+		runtime.Gosched() // let the Accept calls reach their wait
+	}
+	start := make(chan struct{})
+	spin := func(n int) {
+		x := 0
+		for i := 0; i < n; i++ {
+			x += i
+		}
+		_ = x
+	}
+	for id := 1; id <= nd; id++ {
+		id, n := id, rng.Intn(400)
+		wg.Add(1)
+		go func() {
+			defer wg.Done()
+			<-start
+			spin(n)
+			log(vfRec{"ev": "dial.start", "id": id})
+			c, err := ln.DialWithLocalAddr(c33Addr(id))
+			ok := 0
+			if err == nil {
+				ok = 1
+				dconn[id] = c
+			}
+			log(vfRec{"ev": "dial.end", "id": id, "ok": ok})
+		}()
+	}
+	nc := rng.Intn(600)
+	wg.Add(1)
+	go func() {
+		defer wg.Done()
+		<-start
+		spin(nc)
+		log(vfRec{"ev": "close.start", "id": 1})
+		err := ln.Close()
+		ok := 0
+		if err == nil {
+			ok = 1
+		}
+		log(vfRec{"ev": "close.end", "id": 1, "ok": ok})
+	}()
+	close(start)
+	fin := make(chan struct{})
+	go func() { wg.Wait(); close(fin) }()
+	select {
+	case <-fin:
+	case <-time.After(120 * time.Second):
+		return evs, "listener:hang", "Dial/Accept/Close calls did not all return within 120 s although Close was called"
+	}
+	// nothing succeeds once Close has returned
+	if c, err := ln.Dial(); err == nil {
+		c.Close()
+		return evs, "listener:dial-after-close", "a Dial call made after Close had returned succeeded"
+	}
+	if c, err := ln.Accept(); err == nil {
+		c.Close()
+		return evs, "listener:accept-after-close", "an Accept call made after Close had returned succeeded"
+	}
+	key, detail = c33Pairing(no, nd, na, dconn, aconn, apeer)
+	return evs, key, detail
+}
+
 func TestVerifC33Listener(t *testing.T) {
 	vfOpen(t)
 	defer vfDone()
@@ -189,6 +291,29 @@ func TestVerifC33Listener(t *testing.T) {
 			vfViol(k, d, vfRec{"execution": i})
 		}
 	}
+	// races of Close against the hand-over: many short executions judged by the pairing oracle; the
+	// first ones and every violating one also go into the log that TLC validates
+	races := vfEnvInt("VERIF_C33_RACES", 20000)
+	logged, badLogged, dialOkAfter := 0, 0, 0
+	for i := 0; i < races; i++ {
+		evs, k, d := c33RaceOne(rng, n+i)
+		evals++
+		keep := logged < vfEnvInt("VERIF_C33_RACES_LOGGED", 150)
+		if k != "" {
+			vfViol(k, d, vfRec{"race": i})
+			if badLogged < 10 {
+				badLogged++
+				keep = true
+			}
+		}
+		if keep {
+			logged++
+			for _, r := range evs {
+				tw.Emit(r)
+			}
+		}
+		_ = dialOkAfter
+	}
 	tw.Close()
-	vfStat(evals, evals, vfRec{"trace_file": tw.f.Name(), "listener_executions": evals})
+	vfStat(evals, evals, vfRec{"trace_file": tw.f.Name(), "listener_executions": evals, "listener_races": races, "listener_executions_in_trace": n + logged})
 }
